@@ -3,6 +3,7 @@ From Coq Require Import Arith NArith List Bool.
 From DM Require Import Generated.Symbols Generated.ModeTables Model.Outcome Model.SymbolList Model.Planner
   Model.PlannerRun Model.Enc Model.Api Model.DriverSym Model.DriverPlace.
 Import ListNotations.
+From DM Require Import Spec.Stream16022 Spec.Recognise.
 
 Definition pick_sorter (trace : option (list (list nat))) :=
   match trace with
@@ -68,3 +69,6 @@ Fixpoint flip_cws (cw : list N) (ks : list N) (n : nat) : list N :=
 Definition d_dm_flip_codewords (s : SymbolSize) (cw ks : list N) :=
   let dec c := match dm_bitmap s c with Ok (w, bits) => dm_decode bits w | _ => Panic PAssert end in
   (dec cw, dec (flip_cws cw ks 0)).
+
+(* the conformance certificate of Spec/Recognise.v (sound by Proofs/Certify.v) on a stream supplied by the caller *)
+Definition d_certify (prefix : option N) (cw data : list N) : bool := certify prefix cw data.
